@@ -136,7 +136,7 @@ func (s *SecretGen) Generate(proxy *model.Proxy, w *model.WatchedResource, req *
 	// Filter down to resources we can access. We do not return an error if they attempt to access a Secret
 	// they cannot; instead we just exclude it. This ensures that a single bad reference does not break the whole
 	// SDS flow. The pilotSDSCertificateErrors metric and logs handle visibility into invalid references.
-	resources := filterAuthorizedResources(s.parseResources(w.ResourceNames.UnsortedList(), proxy), proxy, proxyClusterSecrets)
+	resources := filterAuthorizedResources(s.parseResources(sets.SortedList(w.ResourceNames), proxy), proxy, proxyClusterSecrets)
 
 	var results model.Resources
 	cached, regenerated := 0, 0
